@@ -24,8 +24,13 @@ TRUSTED = [
     " ParseAggregationFilter with the model on every generated raw string, both case modes, full/nil/empty mapping)",
     "strings.EqualFold(w, \"not\"/\"to\") is modelled as ASCII case folding (no non-ASCII rune folds to n, o or t);"
     " strings.ToLower(operator) as rune-wise unicode.ToLower (oracle); error MESSAGES are not modelled (only ok/error)",
-    "Go's goroutine stack limit is outside the model: the model's recursion depth equals the nesting depth of `(`/`not`,"
-    " which the code does not bound (see ASSUME and the deep-nesting probe)",
+    "nesting limit (commit 712b1a1): Legacy.v carries qp.level through parseSubexpr/parseExpr and rejects beyond the limit;"
+    " the SeqQL glue of Lexer.v tracks lex.level (frames of open `(` and pending NOTs) and rejects an operand beyond it;"
+    " the limit value is Lexer.v max_nesting_depth = 10000, tied to the code by the boundary cases of class nesting-limit"
+    " (limit-1 nested brackets / NOTs accepted, limit rejected, both parsers) - the real constant is deliberately not imported,"
+    " so a changed or removed limit is a failing input, not a build failure",
+    "the goroutine stack is modelled for the legacy parser as a number of parseSubexpr frames (exceeding it = RPanic);"
+    " frame SIZES and the stack use of propagateNot / of the AST consumers are not modelled",
 ]
 ASSUME = [
     "token-level abstraction (semantics theorems): a field filter (k:v, k:in(..), text field with k words) is one token",
@@ -36,10 +41,11 @@ ASSUME = [
     " case folding of values and pipe field names are not modelled",
     "stage 3 theorems (legacy parser, aggregation filter, tokenizer refinement) hold for ALL class oracles, ToLower"
     " functions, case modes and field mappings - no hypothesis",
-    "totality is proved for the MODEL's semantics of Go (unbounded stack): parseSubexpr/parseExpr (and SeqQL's"
-    " parseSeqQLSubexpr) recurse once per `(` / `not` without a depth limit, so a query of about 2 million nested `(`"
-    " (2 MB; the store accepts 256 MB messages) exhausts the real 1 GB goroutine stack - a fatal error that recover()"
-    " cannot catch. The driver probes this in a child process and reports it as fingerprint fatal-stack-overflow:<parser>",
+    "C12_nesting_bounded: with limit m any stack that holds m+1 parseSubexpr frames suffices for every input (legacy model);"
+    " for SeqQL the level check is modelled in the glue and C12_nesting_rejected_seqql states the rejection, the recursion of"
+    " the token-level parser itself carries no stack parameter",
+    "NOT covered by the limit (known finding fatal-stack-overflow-flat-chain): a flat chain of ~10^7 AND/OR operators builds a"
+    " left-deep AST and propagateNot recurses over it until the stack overflows; probed in a child process in the thorough tier",
 ]
 RULE = ("exhaustive: all boolean trees up to the tier's node bound over 3 atoms x minimal/full parentheses x "
         "SeqQL/legacy parser, and (SeqQL) each of them again followed by a pipe section with the same truth-table spec; "
@@ -59,8 +65,10 @@ RULE = ("exhaustive: all boolean trees up to the tier's node bound over 3 atoms 
         "real ParseQuery (full/nil/empty mapping, both case modes) and ParseAggregationFilter vs the rune-level model (outcome and "
         "full AST with tokens; spec: ok or error, NOT only at the root, no empty Literal); grammar-derived expressions written in "
         "varied raw legacy syntax (quoted / spaced / upper-case / path / range / text-with-several-words leaves) with the "
-        "truth-table spec against the generator's expression; 100000-deep nesting under recover and 3000000-deep nesting in a "
-        "child process (real parsers only). non-trivial = expression has "
+        "truth-table spec against the generator's expression; 100000-deep nesting under recover; class nesting-limit: "
+        "maxNestingDepth-1 / maxNestingDepth nested brackets and NOTs (accepted / error; thorough: the bracket cases also through the "
+        "byte-level models) and 3000000 of them in a child process (error, process alive; a death is fatal-stack-overflow:<parser>), "
+        "both parsers; thorough only: flat chain of 10^7 OR operators in a child process (known finding). non-trivial = expression has "
         "a NOT and a binary operator / token list parses / tree has NOT and OR / raw string has >= 3 tokens and a quoted "
         "token, a comment or parses / round trip of >= 2 atoms; distinct by input")
 
